@@ -168,7 +168,8 @@ func main() {
 		k := 1 + rng.Intn(3)
 		perm := rng.Perm(3)
 		var sts []trustpolicy.OCITrustPolicy
-		audit := rng.Bool()
+		levelName := []string{"strict", "permissive", "audit"}[rng.Intn(3)] // permissive: authenticity enforced, authentic timestamp only logged
+		audit := levelName == "audit"
 		for i := 0; i < k; i++ {
 			var list []string
 			m := 1 + rng.Intn(4)
@@ -183,7 +184,7 @@ func main() {
 					list = append(list, t+":"+nm) // duplicate
 				}
 			}
-			sv := trustpolicy.SignatureVerification{VerificationLevel: "strict"}
+			sv := trustpolicy.SignatureVerification{VerificationLevel: levelName, Override: map[trustpolicy.ValidationType]trustpolicy.ValidationAction{trustpolicy.TypeRevocation: trustpolicy.ActionSkip}}
 			if audit {
 				sv = trustpolicy.SignatureVerification{VerificationLevel: "audit", Override: map[trustpolicy.ValidationType]trustpolicy.ValidationAction{trustpolicy.TypeRevocation: trustpolicy.ActionSkip}}
 			}
@@ -192,6 +193,14 @@ func main() {
 		doc := &trustpolicy.OCIDocument{Version: "1.0", TrustPolicies: sts}
 		if err := doc.Validate(); err != nil {
 			panic(fmt.Sprintf("harness bug: %v", err))
+		}
+		// the model keeps its own copy of the statements (the document's may only change if the library lets them)
+		msts := make([]trustpolicy.OCITrustPolicy, len(sts))
+		for k := range sts {
+			msts[k] = sts[k]
+			msts[k].TrustStores = append([]string(nil), sts[k].TrustStores...)
+			msts[k].RegistryScopes = append([]string(nil), sts[k].RegistryScopes...)
+			msts[k].TrustedIdentities = append([]string(nil), sts[k].TrustedIdentities...)
 		}
 		lts := &logTS{inner: truststore.NewX509TrustStore(dir.NewSysFS(base))}
 		// a blob document whose only statements are a global one and a named one, each listing the stores of an OCI statement
@@ -205,13 +214,13 @@ func main() {
 		}
 		applicable := func(repo string) *trustpolicy.OCITrustPolicy {
 			var wild *trustpolicy.OCITrustPolicy
-			for i := range sts {
-				for _, s := range sts[i].RegistryScopes {
+			for i := range msts {
+				for _, s := range msts[i].RegistryScopes {
 					if s == repo {
-						return &sts[i]
+						return &msts[i]
 					}
 					if s == "*" {
-						wild = &sts[i]
+						wild = &msts[i]
 					}
 				}
 			}
@@ -238,6 +247,20 @@ func main() {
 				}
 				trace = append(trace, fmt.Sprintf("VerifyBlob(name=%q) -> calls=%v err=%v", name, lts.calls, berr != nil))
 				continue
+			}
+			if rng.Intn(5) == 0 {
+				// the caller looks the applicable statement up in the document and scribbles over what it was handed
+				// (it is documented to be a private copy): later verifications must not notice
+				if p, err := doc.GetApplicableTrustPolicy(repo + "@" + desc.Digest.String()); err == nil && p != nil {
+					for k := range p.TrustStores {
+						p.TrustStores[k] = types[rng.Intn(3)] + ":" + names[rng.Intn(3)]
+					}
+					for k := range p.TrustedIdentities {
+						p.TrustedIdentities[k] = "x509.subject:C=ZZ,ST=ZZ,O=Scribble"
+					}
+					trace = append(trace, "caller scribbled over the statement returned by GetApplicableTrustPolicy("+repo+")")
+					r.Event("scribbled-statement-copies")
+				}
 			}
 			sigKey := f + "|" + sc
 			if rng.Intn(4) == 0 {
@@ -326,7 +349,10 @@ func main() {
 				r.Sample("model pass, library fail", wit)
 			}
 			if !pass && !audit && verr == nil {
-				r.Violation(sigm("decision-vs-result"), "Verify succeeded under strict although authenticity failed", wit)
+				r.Violation(sigm("decision-vs-result"), "Verify succeeded under "+levelName+" (authenticity enforced) although authenticity failed", wit)
+			}
+			if wantAction := map[bool]trustpolicy.ValidationAction{true: trustpolicy.ActionLog, false: trustpolicy.ActionEnforce}[audit]; auth.Action != wantAction {
+				r.Violation(sigm("authenticity-result-action"), fmt.Sprintf("the authenticity result carries action %q, the level %s assigns %q", auth.Action, levelName, wantAction), wit)
 			}
 			// call-log monitor
 			allowed := map[string]bool{}
@@ -351,6 +377,46 @@ func main() {
 						r.Violation(sigm("store-not-consulted"), fmt.Sprintf("authenticity passed without loading the listed store %s:%s (trust taken from elsewhere)", T, nm), wit)
 					}
 				}
+			}
+		}
+		// ---- a store NAME that walks into a store of another type ("ca:../tsa/s1"): either the statement is refused, or
+		// authenticity fails - certificates of another type's store must not confer trust by way of the name
+		if ci%3 == 0 {
+			for _, o := range stores {
+				if !o.Exists || o.LinkTo != "" || !loadable(&o) {
+					continue
+				}
+				holdsChain := false
+				for _, c := range o.Certs {
+					holdsChain = holdsChain || c == "root" || c == "inter"
+				}
+				if !holdsChain {
+					continue
+				}
+				for _, T := range []string{"ca", "signingAuthority"} {
+					if T == o.Type {
+						continue
+					}
+					for _, nm := range []string{"../" + o.Type + "/" + o.Name, "x/../../" + o.Type + "/" + o.Name, o.Name + "/../../" + o.Type + "/" + o.Name} {
+						d2 := &trustpolicy.OCIDocument{Version: "1.0", TrustPolicies: []trustpolicy.OCITrustPolicy{{Name: "walk", SignatureVerification: trustpolicy.SignatureVerification{VerificationLevel: "audit"},
+							TrustStores: []string{T + ":" + nm}, TrustedIdentities: []string{"*"}, RegistryScopes: []string{"*"}}}}
+						r.Event("store-name-walks")
+						v2, err := verifier.NewVerifierWithOptions(truststore.NewX509TrustStore(dir.NewSysFS(base)), verifier.VerifierOptions{OCITrustPolicy: d2, RevocationCodeSigningValidator: lib.OKRev{}, RevocationTimestampingValidator: lib.OKRev{}})
+						if err != nil {
+							continue // refused at construction
+						}
+						sc := map[string]string{"ca": "notary.x509", "signingAuthority": "notary.x509.signingAuthority"}[T]
+						out, _ := v2.Verify(ctx, desc, sigs[lib.MediaJWS+"|"+sc], notation.VerifierVerifyOptions{ArtifactReference: "reg.io/a@" + desc.Digest.String(), SignatureMediaType: lib.MediaJWS})
+						if out != nil {
+							for _, res := range out.VerificationResults {
+								if res.Type == trustpolicy.TypeAuthenticity && res.Error == nil {
+									r.Violation(map[string]string{"kind": "trust-via-store-name", "scheme": sc}, fmt.Sprintf("authenticity passed for a %s signature under a statement listing %q: the certificates come from the %s store %q", sc, T+":"+nm, o.Type, o.Name), map[string]any{"stores": stores})
+								}
+							}
+						}
+					}
+				}
+				break
 			}
 		}
 		if ci < 2 {
